@@ -287,6 +287,31 @@ impl Machine {
                             let _ = tx.open_table(redb::TableDefinition::<(&[u8; 32], &[u8], &[u8; 32]), ()>::new("records-by-key-1"))?;
                         }
                     }
+                    // ... and every other time the write capabilities are where the first versions kept them:
+                    // secrets in `namespaces-1` (start-up copies them into `namespaces-2` and deletes the old
+                    // table); read-only capabilities did not exist then and stay where they are
+                    if self.wipes % 2 == 1 {
+                        let v2def = redb::TableDefinition::<&[u8; 32], (u8, &[u8; 32])>::new("namespaces-2");
+                        let v1def = redb::TableDefinition::<&[u8; 32], &[u8; 32]>::new("namespaces-1");
+                        let mut moved: Vec<([u8; 32], [u8; 32])> = Vec::new();
+                        {
+                            let v2 = tx.open_table(v2def)?;
+                            for row in redb::ReadableTable::iter(&v2)? {
+                                let (k, v) = row?;
+                                let (kind, bytes) = v.value();
+                                // kind 1 = write (the bytes are the secret)
+                                if kind == 1 { moved.push((*k.value(), *bytes)); }
+                            }
+                        }
+                        if !moved.is_empty() {
+                            let mut v2 = tx.open_table(v2def)?;
+                            let mut v1 = tx.open_table(v1def)?;
+                            for (id, secret) in &moved {
+                                v2.remove(id)?;
+                                v1.insert(id, secret)?;
+                            }
+                        }
+                    }
                     tx.commit()?;
                 }
                 self.ts.store = Some(iroh_docs::store::fs::Store::persistent(&path)?);
